@@ -37,6 +37,7 @@ CONSTANTS PatSet,       \* set of pattern names to explore
           OverwritePsk, \* BOOLEAN: also explore set_psk on a slot that is already filled (C08, C12)
           TamperBudget, \* number of in-transit alterations per behaviour
           Mismatches,   \* subset of {"none","prologue","psk","rs_i","rs_r","rs_i_bit","rs_r_bit"}: one context item differs (C08)
+          ExtraPsks,    \* subset of BOOLEAN: also supply keys in psk slots the pattern does not use (must change nothing: C12)
           OddNames,     \* BOOLEAN: name the protocol with a non-canonical spelling of its psk numerals (psk03 for psk3)
           Emit          \* BOOLEAN: print scenarios
 
@@ -74,7 +75,7 @@ MinOf(S) == CHOOSE x \in S : \A y \in S : x <= y
 (* ow = <<id, n, "fix">>  : id is built with a WRONG key in slot n and later overwrites it with the right one
         <<id, n, "break">>: id is built right and later overwrites slot n with a wrong key               *)
 NoOw == <<"-", 0, "-">>
-CfgFor(id, role, pp, fixed, late, mm, ow) ==
+CfgFor0(id, role, pp, fixed, late, mm, ow) ==
   [ s  |-> IF NeedsLocalStatic(pp.pat, role) THEN (IF role = "i" THEN sI ELSE sR) ELSE None,
     rs |-> IF NeedsRemoteStatic(pp.pat, role)
            THEN (IF (mm = "rs_i" /\ role = "i") \/ (mm = "rs_r" /\ role = "r") THEN Pub(sX)
@@ -100,19 +101,24 @@ TrafficFor(p) ==
 
 BIGBUF == 70000
 
+(* with `extra`, every slot the pattern does not use is filled with an unrelated key *)
+CfgFor(id, role, pp, fixed, late, mm, ow, extra) ==
+  LET c == CfgFor0(id, role, pp, fixed, late, mm, ow) IN
+  IF extra THEN [c EXCEPT !.psk = [n \in 0..4 |-> IF n \in pp.psks THEN c.psk[n] ELSE Atom("pskX", 32)]] ELSE c
+
 Ows(p, ps) == IF OverwritePsk THEN {NoOw} \cup { <<id, n, k>> : id \in {"I", "R"}, n \in ps, k \in {"fix", "break"} }
               ELSE {NoOw}
 Lates(p, ps) == IF LatePsk THEN {<<"-", 0>>} \cup { <<id, n>> : id \in {"I", "R"}, n \in ps } ELSE {<<"-", 0>>}
 
 Init ==
   /\ \E p \in PatSet, pl \in PubLens, ip \in InitPads, prof \in Profiles, v \in Variants, fx \in FixedEs, bm \in BufModes :
-       \E ps \in PskSets(p) : \E late \in Lates(p, ps) : \E mm \in Mismatches : \E ow \in Ows(p, ps) :
+       \E ps \in PskSets(p) : \E late \in Lates(p, ps) : \E mm \in Mismatches : \E ow \in Ows(p, ps) : \E ex \in ExtraPsks :
          /\ (ow # NoOw => late = <<"-", 0>> /\ mm = "none")
          /\ (mm = "psk" => ps # {})
          /\ (mm \in {"rs_i", "rs_i_bit"} => NeedsRemoteStatic(p, "i"))
          /\ (mm \in {"rs_r", "rs_r_bit"} => NeedsRemoteStatic(p, "r"))
          /\ prm = [pp |-> PP(p, ps, pl, ip), prof |-> prof, variant |-> v, fixed |-> fx, late |-> late, bufs |-> bm,
-                   mm |-> mm, ow |-> ow]
+                   mm |-> mm, ow |-> ow, extra |-> ex]
   /\ ep = [id \in {"I", "R"} |-> Absent]
   /\ hist = <<>>
   /\ aeadLog = {}
@@ -186,9 +192,9 @@ GenuinePayload(k) == Lit(PayId(k), PayLen(k, St(Writer(k))))
 Genuine ==
   /\ ~Done
   /\ UNCHANGED <<prm, budget>>
-  /\ CASE pc = 0 -> /\ Build("I", "i", prm.pp, CfgFor("I", "i", prm.pp, prm.fixed, prm.late, prm.mm, prm.ow))
+  /\ CASE pc = 0 -> /\ Build("I", "i", prm.pp, CfgFor("I", "i", prm.pp, prm.fixed, prm.late, prm.mm, prm.ow, prm.extra))
                     /\ pc' = pc + 1 /\ UNCHANGED <<wire, sent, status>>
-       [] pc = 1 -> /\ Build("R", "r", prm.pp, CfgFor("R", "r", prm.pp, prm.fixed, prm.late, prm.mm, prm.ow))
+       [] pc = 1 -> /\ Build("R", "r", prm.pp, CfgFor("R", "r", prm.pp, prm.fixed, prm.late, prm.mm, prm.ow, prm.extra))
                     /\ pc' = pc + 1 /\ UNCHANGED <<wire, sent, status>>
        [] InHandshake ->
             LET k == HsMsg IN
